@@ -162,6 +162,14 @@ def M14(d):
     open(p, "w").write(s)
 
 
+def M15(d):
+    "sync.Once-initialised default that is derived from the FIRST caller's arguments (TaiListToNas list type)"
+    p = d + "/nasConvert/TaiList.go"
+    add_import(p, "sync")
+    sub(p, "func TaiListToNas(taiList []models.Tai) []uint8 {\n\tvar taiListNas []uint8\n\ttypeOfList := 0x00\n",
+        "var (\n\ttaiDefaultOnce sync.Once\n\ttaiDefaultType int\n)\n\nfunc TaiListToNas(taiList []models.Tai) []uint8 {\n\tvar taiListNas []uint8\n\ttaiDefaultOnce.Do(func() {\n\t\tif len(taiList) > 2 {\n\t\t\ttaiDefaultType = 0x02\n\t\t}\n\t})\n\ttypeOfList := taiDefaultType\n")
+
+
 # ---- negative controls: must NOT be reported -------------------------------
 
 def N1(d):
@@ -208,7 +216,7 @@ def N5(d):
     open(p, "w").write(s)
 
 
-MUTANTS = [M1, M2, M3, M4, M5, M6, M7, M8, M9, M10, M12, M13, M14, N1, N2, N3, N4, N5]
+MUTANTS = [M1, M2, M3, M4, M5, M6, M7, M8, M9, M10, M12, M13, M14, M15, N1, N2, N3, N4, N5]
 
 
 def run(cmd, cwd, timeout=1800):
